@@ -1,7 +1,7 @@
 (* C02, Type 2: after a power cut behind any WRITE command of an NDEF write a fresh reader sees the
    previous message, an empty message, or the complete new message. *)
 From Coq Require Import ZArith List Bool Lia ZifyBool.
-From NV Require Import Base.Result Base.Bytes Model.TlvMem Model.T2T Proofs.TlvLib Proofs.T2TRead Proofs.T2TPhases Proofs.T2TWrite.
+From NV Require Import Base.Result Base.Bytes Model.TlvMem Model.T2T Proofs.TlvLib Proofs.TlvPhases Proofs.T2TRead Proofs.T2TPhases Proofs.T2TWrite.
 Import ListNotations.
 Open Scope Z_scope.
 
